@@ -156,6 +156,44 @@ theorem solve_stop_kkt (s : McBox Rat) (h : FullInv s) (eps : Rat) (maxIter : Na
   have := (solveLoop_spec eps maxIter _ h).2 hstop
   exact ⟨this.1, kkt_of_maxViolation _ this.1 eps this.2⟩
 
+/-! ### the constant data -/
+
+theorem sameStatic_solveTail (eps : Rat) (st : SolveSt Rat) (i j : Nat) : SameStatic st.s (solveTail eps st i j).s := by
+  unfold solveTail
+  dsimp only
+  by_cases hv : i < st.s.activeVar ∧ j < st.s.activeVar
+  · rw [if_pos hv]
+    by_cases h0 : st.shrinkCounter = 0
+    · rw [if_pos h0]
+      exact (sameStatic_updateSMO st.s i j).trans (sameStatic_shrink _ eps)
+    · rw [if_neg h0]
+      exact sameStatic_updateSMO st.s i j
+  · rw [if_neg hv]
+    exact SameStatic.refl _
+
+theorem sameStatic_solveBody (eps : Rat) (st : SolveSt Rat) : SameStatic st.s (solveBody eps st).s := by
+  unfold solveBody
+  dsimp only
+  split_ifs with h1 h2
+  · exact sameStatic_unshrink st.s
+  · exact ((sameStatic_unshrink st.s).trans (sameStatic_shrink _ eps)).trans
+      (sameStatic_solveTail eps { st with s := (st.s.unshrink.shrink eps).1 } _ _)
+  · exact sameStatic_solveTail eps st _ _
+
+theorem sameStatic_solve (s : McBox Rat) (eps : Rat) (maxIter : Nat) : SameStatic s (solve s eps maxIter).s := by
+  suffices H : ∀ (fuel : Nat) (st : SolveSt Rat), SameStatic st.s (solveLoop eps fuel st).s from
+    H maxIter { s := s, iter := 0, shrinkCounter := 0, stop := .running }
+  intro fuel
+  induction fuel with
+  | zero => intro st; exact SameStatic.refl _
+  | succ fuel ih =>
+    intro st
+    unfold solveLoop
+    dsimp only
+    split_ifs with hr
+    · exact (sameStatic_solveBody eps st).trans (ih _)
+    · exact sameStatic_solveBody eps st
+
 /-! ### the loop only renumbers the dual problem -/
 
 /-- `s` carries the same dual problem as `s0` up to the renumbering `σ` (inverse `τ`) of the variables -/
